@@ -547,3 +547,29 @@ def check_re_positional_flags(rep, src, rule, modname, why, minimum=0):
         from ..core import AnalysisError
         raise AnalysisError('%s: only %d re.split / re.sub calls with a third argument' % (modname, n))
     return n
+
+
+def ordered_set_fields(src):
+    """(table attribute, order attribute) of _util.OrderedSet as stored on an instance -- read off its constructor: the attribute that is
+    set to an empty dictionary (item -> node) and the one that is set to a LinkedList (the order); their private names are the class's
+    own business"""
+    from ..core import norm, AnalysisError
+    mod = src.mod('_util')
+    init = mod.method('OrderedSet', '__init__')
+    if init is None:
+        raise AnalysisError('_util:OrderedSet.__init__ not found')
+    table = order = None
+    for st in ast.walk(init.node):
+        if isinstance(st, (ast.Assign, ast.AnnAssign)):
+            tgt = st.targets[0] if isinstance(st, ast.Assign) else st.target
+            v = st.value
+            if not (isinstance(tgt, ast.Attribute) and norm(tgt.value) == 'self' and v is not None):
+                continue
+            name = ('_OrderedSet' + tgt.attr) if tgt.attr.startswith('__') and not tgt.attr.endswith('__') else tgt.attr
+            if (isinstance(v, ast.Dict) and not v.keys) or (isinstance(v, ast.Call) and norm(v.func) == 'dict' and not v.args):
+                table = table or name
+            elif isinstance(v, ast.Call) and norm(v.func) == 'LinkedList':
+                order = order or name
+    if table is None or order is None:
+        raise AnalysisError('_util:OrderedSet.__init__: no empty dictionary next to a LinkedList (the representation of the key set changed)')
+    return table, order
